@@ -184,7 +184,7 @@ def run(ctx, rep):
             ok = False
             if p.end == 'return':
                 r = sym.strip_upd(p.ret)
-                if r[0] == 'call' and r[1].startswith('std::cell::UnsafeCell::<T>::get') and len(r[2]) == 1:
+                if r[0] in ('call', 'pcall') and r[1].startswith('std::cell::UnsafeCell::<T>::get') and len(r[2]) == 1:
                     a = r[2][0]
                     ok = a[0] == 'ref' and a[1][1] == (('f', 'root'),) and a[1][0][0] == 'ext' and a[1][0][1][0] == 'param'
             rep.ob('D-unsafe', 'deref-of-root-cell:%s' % sym.short(o), ok,
